@@ -9,7 +9,7 @@ from hypothesis import strategies as st
 
 from vlib import core, gen_ir, hops
 from vlib.core import Result, is_open
-from vlib.norm import default_view, is_optional
+from vlib.norm import default_view, is_optional, literal_members
 
 ID = "C19"
 RULE = (
@@ -21,7 +21,7 @@ RULE = (
 )
 TIERS = {"quick": {"shards": 8, "n": 160, "budget_s": 220}, "thorough": {"shards": 16, "n": 2000, "budget_s": 2700}}
 FLOOR = {"quick": 60, "thorough": 4000}
-REQUIRED_LABELS = {"quick": ["mixed-kinds-in-one-module", "in:class", "in:function", "in:argparse", "emit:class", "emit:function", "emit:argparse", "emit:pydantic", "emit:json_schema", "emit:sqlalchemy", "existing-output", "infer-imports", "prepend"], "thorough": []}
+REQUIRED_LABELS = {"quick": ["mixed-kinds-in-one-module", "in:class", "in:function", "in:argparse", "in:json", "in:dir", "emit:class", "emit:function", "emit:argparse", "emit:pydantic", "emit:json_schema", "emit:sqlalchemy", "existing-output", "infer-imports", "prepend"], "thorough": []}
 ASSUMPTIONS = [
     "input symbols are produced by cdd's own emitters from generated interfaces of the common domain (round-trip clean by C02)",
     "SQLAlchemy-class and Table inputs are outside the generated domain (finding P37)",
@@ -40,15 +40,20 @@ def init_worker(ctx):
 def case_strategy(draw):
     n = draw(st.integers(1, 5))
     snames = draw(st.lists(gen_ir.names.map(lambda s: s.capitalize()), min_size=n, max_size=n, unique=True))
-    kind = draw(st.sampled_from(["class", "function", "argparse", "mixed"]))
+    kind = draw(st.sampled_from(["class", "function", "argparse", "mixed", "json", "dir"]))
+    if kind == "json":
+        snames = snames[:1]  # one JSON-schema file is one entry of the mapping, named after the file
     irs = [draw(gen_ir.interface("common", min_params=1, max_params=4, returns=False, min_literal=2)) for _ in snames]
     kinds_in = [draw(st.sampled_from(["class", "function", "argparse"])) for _ in snames] if kind == "mixed" else [kind] * len(snames)
+    if kind == "dir":
+        # a directory as input mapping: one file per symbol, Python classes and JSON-schema files side by side
+        kinds_in = [draw(st.sampled_from(["class", "class", "json"])) for _ in snames]
     return {
         "in": kind,
         "kinds_in": kinds_in,
         "names": snames,
         "irs": irs,
-        "parse": "infer" if kind == "mixed" else draw(st.sampled_from(["explicit", "infer"])),
+        "parse": "infer" if kind in ("mixed", "dir") else draw(st.sampled_from(["explicit", "infer"])),
         "emit": draw(st.sampled_from(EMITS)),
         "tpl": draw(st.sampled_from(TPLS)),
         "infer": draw(st.booleans()),
@@ -59,6 +64,36 @@ def case_strategy(draw):
 
 def strategy(ctx):
     return case_strategy()
+
+
+def json_input(nm, ir_case):
+    with core.quiet():
+        return json.dumps(cdd.json_schema.emit.json_schema(gen_ir.to_ir(ir_case, name=nm)))
+
+
+def write_input(case, d):
+    """-> path handed to --input-mapping (a .py file, a .json file or a directory of both)"""
+    kinds = case.get("kinds_in") or [case["in"]] * len(case["names"])
+    if case["in"] == "json":
+        p = os.path.join(d, case["names"][0] + ".json")
+        with open(p, "w") as f:
+            f.write(json_input(case["names"][0], case["irs"][0]))
+        return p
+    if case["in"] == "dir":
+        dd = os.path.join(d, "inputs")
+        os.mkdir(dd)
+        for nm, ir_case, k in zip(case["names"], case["irs"], kinds):
+            if k == "json":
+                with open(os.path.join(dd, nm + ".json"), "w") as f:
+                    f.write(json_input(nm, ir_case))
+            else:
+                with open(os.path.join(dd, "mod_" + nm.lower() + ".py"), "w") as f:
+                    f.write(render_input({"names": [nm], "irs": [ir_case], "in": k}))
+        return dd
+    p = os.path.join(d, "inp.py")
+    with open(p, "w") as f:
+        f.write(render_input(case))
+    return p
 
 
 def render_input(case):
@@ -104,6 +139,16 @@ def used_typing_names(mod):
     return out
 
 
+def _json_renamed(case):
+    """P17d (the SQLAlchemy emitters name the class after the IR, not after the mapping key) also shows with the
+    identity template when the IR name differs from the key: a JSON-schema file's IR is named
+    pascal_to_upper_camelcase(stem), which upper-cases a letter that follows a digit (`Bie1f0` -> `Bie1F0`)"""
+    import re
+
+    kinds = case.get("kinds_in") or [case["in"]] * len(case["names"])
+    return any(k == "json" and re.search(r"[0-9_][a-z]", n) for n, k in zip(case["names"], kinds))
+
+
 def view(ir):
     return [(n, default_view(p)) for n, p in ir["params"].items()]
 
@@ -120,18 +165,16 @@ def oracle(case):
         r.label("existing-output")
     d = tempfile.mkdtemp(prefix="c19_", dir="/dev/shm" if os.path.isdir("/dev/shm") else None)
     try:
-        ip = os.path.join(d, "inp.py")
         op = os.path.join(d, "out.json" if emit == "json_schema" else "out.py")
-        with open(ip, "w") as f:
-            f.write(render_input(case))
-        parse = {"class": "class", "function": "function", "argparse": "argparse"}[case["in"]] if case["parse"] == "explicit" else "infer"
+        ip = write_input(case, d)
+        parse = {"class": "class", "function": "function", "argparse": "argparse", "json": "json_schema"}[case["in"]] if case["parse"] == "explicit" else "infer"
         if len(set(case.get("kinds_in") or [])) > 1:
             r.label("mixed-kinds-in-one-module")
         argv = ["gen", "--name-tpl", tpl, "--input-mapping", ip, "--parse", parse, "--emit", emit, "-o", op]
         if case["infer"]:
             argv.append("--emit-and-infer-imports")
         if case["prepend"]:
-            argv += ["--prepend", case["prepend"], "--imports-from-file", ip]
+            argv += ["--prepend", case["prepend"]] + (["--imports-from-file", ip] if ip.endswith(".py") else [])
         if case["existing"]:
             with open(op, "w") as f:
                 f.write("SENTINEL = 1\n")
@@ -175,6 +218,15 @@ def oracle(case):
         except Exception as e:
             r.fail("json-invalid", str(e))
             return r
+        # one schema per entry, each with the parameters of its source entry in order
+        schemas = doc["schemas"] if isinstance(doc, dict) and "schemas" in doc else [doc]
+        if len(schemas) != len(case["names"]):
+            r.fail("json-schema-count", "%d schemas for %d entries" % (len(schemas), len(case["names"])))
+        else:
+            by_props = sorted(json.dumps(list(sch.get("properties", {}))) for sch in schemas)
+            want_props = sorted(json.dumps([n for n, _p in ir_case["params"]]) for ir_case in case["irs"])
+            if by_props != want_props:
+                r.fail("json-schema-properties", "schemas carry %s, entries %s" % (by_props, want_props))
         r.nontrivial = len(case["names"]) >= 2 and tpl != "{name}"
         return r
     try:
@@ -193,7 +245,7 @@ def oracle(case):
     sql = emit.startswith("sqlalchemy")
     extra_ok = {"Base", "metadata"} if sql else set()
     if sorted(set(defined) - extra_ok) != sorted(want):
-        if sql and tpl != "{name}" and is_open("P17d"):
+        if sql and (tpl != "{name}" or _json_renamed(case)) and is_open("P17d"):
             r.covered("P17d")
         else:
             r.fail("defined-names", "defined %s, templated names %s" % (sorted(defined), sorted(want)))
@@ -210,7 +262,7 @@ def oracle(case):
         node = nodes.get(w) or (nodes.get(nm) if sql else None)
         if node is None:
             continue  # reported by the naming clauses
-        if sql and tpl != "{name}" and is_open("P17d"):
+        if sql and (tpl != "{name}" or (k_in == "json" and _json_renamed(case))) and is_open("P17d"):
             r.covered("P17d")  # the Table/class is bound to the un-templated name: the parsers' name assertions fail
             continue
         try:
@@ -235,6 +287,8 @@ def oracle(case):
             if sql and is_optional(t2) and "default" in p and p["default"] != gen_ir.NoneStr:
                 continue  # Optional with a non-None default is outside the SQL-representable domain (C05's quantifier)
             if t1 != t2:
+                if k_in == "json" and literal_members(t1) is not None and sorted(literal_members(t1)) == sorted(literal_members(t2) or []) and is_optional(t1) == is_optional(t2):
+                    continue  # a JSON-schema carries Literal members as a sorted pattern (C06: compared as a set)
                 if lossy and ("default" not in p or t1 == "Optional[%s]" % t2):
                     continue
                 if sql and t2 == "dict":
